@@ -30,6 +30,8 @@ checks = {
          "All backends incl. EmbeddedFS and type-conflicting overlay layers; hostile joins, root calls, wrong-type calls, extreme seek offsets, zero-length buffers, handles kept across removals; on-disk non-UTF-8 names, dangling symlinks, entries removed behind the library; k-th-call I/O errors (one-shot/sticky), short I/O, EINTR. Any panic in a call, handle call, observer or drop is a violation."),
  "C14": ("exploration", "handle call scripts compared call by call with std::io::Cursor (count feedback), publish check at flush/drop", "7/C14",
          "read(n)/seek(Start|Current|End, off)/write/flush scripts on handles of every backend and adapter (EmbeddedFS readers included), offsets around 0, +-len, +-2^40, zero-length reads, writes past the end; short I/O and EINTR injected below adapters."),
+ "C15": ("exploration", "lock-step sync/async twin simulation under seeded poll schedules (Pending injection in every inner future, stream and handle poll)", "7/C15",
+         "The same history (C01/C09 domain plus reader scripts, walk_dir and composite operations) runs on a sync stack and on two async twins built from the same spec and the same listing-order seeds; a PendFS wrapper at every layer boundary makes inner futures, listing streams (between items) and handle polls return Pending 0-3 times with two different densities; outcomes, error classes, stream items (walk: multiset + parent before child), reader results and full snapshots are compared after every step, the two poll schedules with each other, and on memory-backed stacks every Pending must be an injected one (bounded progress)."),
  "C16": ("exploration", "controlled thread scheduler at lock-acquisition granularity (hooked RwLock), linearizability against sequential runs of the real code", "7/C16",
          "Small programs (2-3 threads, <= 9 API calls: create_dir, create_file/append sessions as open+write+drop, remove_file, remove_dir, exists, metadata, read_dir, open+read on <= 4 overlapping paths, optional initial content) run on real threads under a baton scheduler that decides which thread passes each MemoryFS lock acquisition (seeded uniform and PCT depth 1-3, 60 schedules per program); the concurrent per-call results and final snapshot must equal those of some program-order-respecting sequential order, all of which are executed on a fresh MemoryFS; panics, deadlock (all threads blocked) and livelock (> 20000 decisions) are violations."),
  "C17": ("exploration", "controlled thread scheduler at lock (MemoryFS) and trait-call (SimFS boundary) granularity over concurrent create_dir_all programs", "7/C17",
@@ -53,6 +55,7 @@ notes = {
  "C12": "Faults are off (the statement is about reachable states, not injected failures).",
  "C13": "Process aborts (stack overflow, allocation failure) are not caught by catch_unwind: they would end the check with a non-zero, non-1 status. File sizes and writer seek targets are bounded to 1 MiB.",
  "C14": "Seeks on append handles are compared on all-memory stacks only; offsets beyond +-2^40 are left to C13 (OS limits differ from Cursor).",
+ "C15": "Own single-threaded executor (futures::executor::block_on would make AsyncWritableFile::drop's nested block_on panic - executor choice is outside the statement). Timestamps and seeking write handles (absent in the async API) excluded. AsyncPhysicalFS completes on async-std's blocking pool: outcomes are compared, poll counts on that backend are not. One known finding (async-std File after a zero-length read).",
  "C16": "Linearizability is judged at API-call granularity with the real code as its own sequential specification (a write session is open, private writes, publish at drop). Failed calls are compared as 'failed' without the error kind. Needs the guarded hook (feature verif-hooks) in MemoryFS's lock.",
  "C17": "PhysicalFS interleavings are at trait-call granularity (kernel-atomic syscalls serialised by the scheduler), not inside the kernel.",
  "C19": "OverlayFS set_*_time on a lower-only entry fails not-found and changes nothing: accepted by the statement's letter.",
@@ -81,7 +84,7 @@ man = {
 }
 pending = {}
 import os
-for pid in ["C15"]:
+for pid in []:
     if pid not in checks:
         man["not_applicable"].append({"property_id": pid, "reason": "check not built yet in this round (planned: DESIGN.md section 7)"})
 for pid in sorted(checks):
